@@ -109,6 +109,23 @@ std::string handle(const std::string& op, Args& a)
 		};
 		return bad ? run_forked(body) : run(body);
 	}
+	if(op == "c06.qscan")	// a fine scan of GammaQ in r = (x-(a-1))/sqrt(a) for a > 100: pairs (x_i, GammaQ(x_i,a))
+	{
+		double s = a.dbl(), r0 = a.dbl(), dr = a.dbl();
+		size_t n = a.u64();
+		a.end();
+		if(!(s > 100.0) || n > 100000)
+			throw BadArgs("qscan needs a > 100");
+		return run([&](Out& o) {
+			double sq = std::sqrt(s);
+			for(size_t i = 0; i < n; i++)
+			{
+				double x = (s - 1.0) + (r0 + i * dr) * sq;
+				o << x;
+				o << (x > 0 ? GammaQ(x, s) : NAN);
+			}
+		});
+	}
 	if(op == "c06.invp" || op == "c06.invq")
 	{
 		double p = a.dbl(), s = a.dbl();
